@@ -72,6 +72,8 @@ func runC16(c *Ctx) {
 	c.r163()
 	c.r164()
 	c.r165()
+	// xml.KeepWhitespace honoured: the white-space clauses of C06 are option clauses too
+	c.alsoUnder(map[string]string{"R06.2": "R16.6", "R06.3": "R16.7"}, nil, func() { runC06(c) })
 }
 
 // R16.5: with KeepComments no comment token is consumed without being written.
